@@ -1092,6 +1092,98 @@ def _adf15_axes(run, m15, er):
         run.ok('C08-R5', 'ADF15 axes', 'densities, then temperatures, then n_ne * n_te rates as rate[density, temperature]')
 
 
+def _adf2x_axes_symbolic(run, mu, pr, K2):
+    """Any other spelling of the table assembly: the statements are replayed on arrays of *symbols* with numpy's own reshape / concatenate /
+    transpose (sa/npsym.py): 2 energies, 3 densities, record d of the file = (b_d0, b_d1); the table stored under 'SV' must hold b_de at
+    [e, d]."""
+    from ..npsym import NpEval, Unknown, tokens
+    import numpy as _np
+    eb = [v2 for t2, v2, s2 in stores(pr) if isinstance(t2, ast.Subscript) and norm(t2.slice) == "'EB'" and isinstance(v2, ast.Call) and dotted(v2.func) == 'readvalues']
+    dt = [v2 for t2, v2, s2 in stores(pr) if isinstance(t2, ast.Subscript) and norm(t2.slice) == "'DT'" and isinstance(v2, ast.Call) and dotted(v2.func) == 'readvalues']
+    svs = [(v2, s2) for t2, v2, s2 in stores(pr) if isinstance(t2, ast.Subscript) and norm(t2.slice) == "'SV'"]
+    if not eb or not dt or len(svs) != 1:
+        run.undecided('C08-R5', 'ADF2x axes', 'two-dimensional table allocation not recognised')
+        return
+    ne_, nd_ = norm(eb[0].args[1]), norm(dt[0].args[1])
+    NE, ND = 2, 3
+    count = [0]
+
+    def leaf(e):
+        if isinstance(e, ast.Call) and dotted(e.func) == 'readvalues' and len(e.args) >= 2:
+            n = ev.ev(e.args[1])
+            k = count[0]
+            count[0] += 1
+            return tokens('b%d' % k, (n,))
+        return None
+    ev = NpEval(env={ne_: NE, nd_: ND}, leaf=leaf)
+
+    def comp(e):
+        # [expr for _ in range(K)]
+        if isinstance(e, ast.ListComp) and len(e.generators) == 1 and isinstance(e.generators[0].iter, ast.Call) and dotted(e.generators[0].iter.func) == 'range':
+            g = e.generators[0]
+            out = []
+            for i in range(*[ev.ev(a) for a in g.iter.args]):
+                if isinstance(g.target, ast.Name):
+                    ev.env[g.target.id] = i
+                out.append(ev.ev(e.elt))
+            return out
+        return None
+    base_ev = ev.ev
+
+    def ev2(e):
+        r = comp(e)
+        if r is not None:
+            return r
+        return base_ev(e)
+    ev.ev = ev2
+
+    def run_stmts(stmts):
+        for st in stmts:
+            if isinstance(st, ast.For) and isinstance(st.target, ast.Name) and isinstance(st.iter, ast.Call) and dotted(st.iter.func) == 'range':
+                try:
+                    rng = range(*[ev.ev(a) for a in st.iter.args])
+                except Exception:
+                    continue
+                for i in rng:
+                    ev.env[st.target.id] = i
+                    run_stmts(st.body)
+                continue
+            try:
+                ev.run([st])
+            except Unknown:
+                continue
+            except Exception:
+                continue
+    # replay from the statement after the density axis has been read (the records of the table follow it in the file)
+    body = list(pr.body)
+    start = 0
+    for k, st in enumerate(body):
+        if any(x is dt[0] for x in ast.walk(st)):
+            start = k + 1
+    count[0] = 0
+    run_stmts(body[start:])
+    try:
+        got = ev.ev(svs[0][0])
+    except Exception as e:
+        run.undecided('C08-R5', 'ADF2x axes', 'table assembly not interpreted: %s' % str(e)[:50])
+        return
+    if not isinstance(got, _np.ndarray) or got.shape != (NE, ND):
+        if isinstance(got, _np.ndarray) and got.shape == (ND, NE):
+            run.fail('C08-R5', K2 + 'axis-order', mu.relpath, svs[0][1].lineno, 'parse_adas2x_rate builds sv[density, energy]; documented: sv[energy, density]')
+        else:
+            run.undecided('C08-R5', 'ADF2x axes', 'table has shape %s for %d energies and %d densities' % (getattr(got, 'shape', None), NE, ND))
+        return
+    bad = [(e_, d_) for e_ in range(NE) for d_ in range(ND) if got[e_, d_] != 'b%d%d' % (d_, e_)]
+    if not bad:
+        run.ok('C08-R5', 'ADF2x axes', 'sv[energy, density] assembled from one record of energies per density (replayed on symbols)')
+    else:
+        e_, d_ = bad[0]
+        run.fail('C08-R5', K2 + 'axis-order', mu.relpath, svs[0][1].lineno,
+                 'parse_adas2x_rate: with %d energies and %d densities the entry sv[energy %d, density %d] holds value %s of record %s; the file stores '
+                 'one record of energies per density, so it must hold value %d of record %d (the table is scrambled although its shape is right)'
+                 % (NE, ND, e_, d_, str(got[e_, d_])[2:], str(got[e_, d_])[1:2], e_, d_))
+
+
 def _adf2x_axes(run, mu, pr):
     """sv[energy, density]: ndt columns of neb values each"""
     run.subject('C08-R5')
@@ -1099,7 +1191,7 @@ def _adf2x_axes(run, mu, pr):
     zs = [(t, v, st) for t, v, st in stores(pr) if isinstance(t, ast.Name) and isinstance(v, ast.Call) and dotted(v.func) in ('np.zeros', 'numpy.zeros')
           and v.args and isinstance(v.args[0], ast.Tuple) and len(v.args[0].elts) == 2]
     if len(zs) != 1:
-        run.undecided('C08-R5', 'ADF2x axes', 'two-dimensional table allocation not recognised')
+        _adf2x_axes_symbolic(run, mu, pr, K2)
         return
     tab = zs[0][0].id
     d0, d1 = [norm(e) for e in zs[0][1].args[0].elts]
